@@ -141,7 +141,7 @@ StartSpan(t, s, m, tc, ft, fs) ==
                                 tcls |-> IF o.p # 0 THEN ents[o.p].tcls ELSE tc,
                                 ended |-> FALSE, exported |-> "no"])
        /\ ls' = [e |-> Len(ents) + 1, m |-> m, act |-> ActiveParent(t), p |-> o.p, s |-> s,
-                 dec |-> Dec(s, o.p, tc), sts |-> STs(s)]
+                 dec |-> Dec(s, o.p, tc), sts |-> STs(s), dev |-> o.dev]
        /\ devUsed' = IF o.dev = "" THEN devUsed ELSE devUsed \cup {o.dev}
        /\ Rec([op |-> "start", t |-> t, s |-> s, m |-> m, tcls |-> tc, e |-> Len(ents) + 1,
                exp |-> o.res, dev |-> o.dev,
@@ -248,7 +248,8 @@ DecisionA ==
    LET n == ents'[Len(ents')] IN
    /\ n.dec = ls'.dec
    /\ (n.kind = "sdk") <=> (ls'.dec # "DROP")
-   /\ devUsed' = devUsed => ((n.flags = 1) <=> (ls'.dec = "RS"))
+   /\ ls'.dev = "" => ((n.flags = 1) <=> (ls'.dec = "RS"))
+   /\ ls'.dev # "" => ls'.dev \in Dev
 StartRules == [][PrecedenceA /\ TraceStateA /\ DecisionA]_vars
 \* a thread's stack changes only by that thread's own WithActiveSpan / scope release
 ThreadsIsolated == [][\A t \in Thr : stack'[t] # stack[t] => actor' = t]_vars
